@@ -9,7 +9,7 @@ SYSTEMS = {1: "NPM", 2: "Maven", 3: "PyPI"}   # values of the API's System enum;
 def histories(h, tier):
     # each step: (package, version, deleted, number of requirements)
     if tier == "quick":
-        steps = [(0, 0, 0, 1), (0, 1, 0, 0), (1, 0, 1, 0), (0, 2, 0, 2), (0, 0, 0, 2), (0, 4, 0, 0)]
+        steps = [(0, 0, 0, 1), (0, 1, 0, 0), (1, 0, 1, 0), (0, 2, 0, 2), (0, 0, 0, 2), (0, 4, 0, 0), (0, 0, 1, 2)]  # the last: a deleted-flagged addition of a key used by others
     else:
         steps = [(p, v, d, n) for p in (0, 1) for v in (0, 1, 2, 3, 4) for d in (0, 1) for n in (0, 1, 2)]
     return itertools.product(steps, repeat=h)
